@@ -1314,16 +1314,18 @@ def derivative_surface(obj):
         warnings.warn("Cannot compute hodograph surface for a rational surface")
         return obj
 
-    # Find the control points of the derivative surface
-    d = 2  # 0 <= k + l <= d, see pg. 114 of The NURBS Book, 2nd Ed.
+    # Find the control points of the first derivative surfaces. Only first derivatives are taken at a time: the control
+    # points of the second derivatives do not exist at knots whose multiplicity equals the degree (division by zero)
     pkl = helpers.surface_deriv_cpts(obj.dimension, obj.degree, obj.knotvector, obj.ctrlpts, obj.cpsize,
-                                            rs=(0, obj.ctrlpts_size_u - 1), ss=(0, obj.ctrlpts_size_v - 1), deriv_order=d)
+                                     rs=(0, obj.ctrlpts_size_u - 1), ss=(0, obj.ctrlpts_size_v - 1), deriv_order=1)
 
     ctrlpts2d_u = []
     for i in range(0, len(pkl[1][0]) - 1):
         ctrlpts2d_u.append(pkl[1][0][i])
 
+    # The derivative surfaces keep the parametrization of the input: no knot vector normalization
     surf_u = copy.deepcopy(obj)
+    surf_u._kv_normalize = False
     surf_u.degree_u = obj.degree_u - 1
     surf_u.ctrlpts2d = ctrlpts2d_u
     surf_u.knotvector_u = obj.knotvector_u[1:-1]
@@ -1334,17 +1336,21 @@ def derivative_surface(obj):
         ctrlpts2d_v.append(pkl[0][1][i][0:-1])
 
     surf_v = copy.deepcopy(obj)
+    surf_v._kv_normalize = False
     surf_v.degree_v = obj.degree_v - 1
     surf_v.ctrlpts2d = ctrlpts2d_v
     surf_v.knotvector_v = obj.knotvector_v[1:-1]
     surf_v.delta = obj.delta
 
+    # The mixed derivative is the v-derivative of the u-derivative surface (row by row)
     ctrlpts2d_uv = []
-    for i in range(0, len(pkl[1][1]) - 1):
-        ctrlpts2d_uv.append(pkl[1][1][i][0:-1])
+    for row in ctrlpts2d_u:
+        pk = helpers.curve_deriv_cpts(obj.dimension, obj.degree_v, obj.knotvector_v, row,
+                                      rs=(0, obj.ctrlpts_size_v - 1), deriv_order=1)
+        ctrlpts2d_uv.append(pk[1][0:-1])
 
     # Generate the derivative curve
-    surf_uv = obj.__class__()
+    surf_uv = obj.__class__(normalize_kv=False)
     surf_uv.degree_u = obj.degree_u - 1
     surf_uv.degree_v = obj.degree_v - 1
     surf_uv.ctrlpts2d = ctrlpts2d_uv
